@@ -828,6 +828,31 @@ pub fn sweeps(thorough: bool) -> Vec<(Program, String)> {
 		}
 	}
 
+	// S14: the same unnamed composite type (one shared schema node per Rust type lookup) reached
+	// several times under one root, with no named type defined in between
+	let i64_ = || lf(Leaf::I64);
+	let shared: Vec<(Vec<FieldTy>, &str)> = vec![
+		(vec![pl(hmap(i64_())), pl(bmap(lf(Leaf::U64)))], "map<long> twice as HashMap<String, i64> and BTreeMap<String, u64>"),
+		(vec![pl(bmap(i64_())), pl(bmap(i64_()))], "map<long> twice as BTreeMap"),
+		(vec![pl(hmap(i64_())), pl(bmap(i64_())), pl(hmap(lf(Leaf::U32)))], "map<long> three times"),
+		(vec![pl(bmap(nm(1))), pl(bmap(nm(1))), pl(hmap(nm(1)))], "map of a record three times"),
+		(vec![pl(vec_(i32_())), pl(vec_(i32_())), pl(vec_(lf(Leaf::U16)))], "Vec<i32> three times"),
+		(vec![pl(opt(str_())), pl(opt(str_())), pl(opt(str_()))], "Option<String> three times"),
+		(vec![pl(vec_(vec_(i32_()))), pl(vec_(i32_())), pl(vec_(vec_(i32_())))], "Vec<Vec<i32>>, Vec<i32>, Vec<Vec<i32>>"),
+		(vec![pl(vec_(bmap(i64_()))), pl(bmap(i64_())), pl(opt(bmap(i64_())))], "map inside Vec, the bare map, the map inside Option"),
+		(vec![pl(bmap(bmap(i32_()))), pl(bmap(i32_())), pl(bmap(bmap(i32_())))], "map of map, the inner map, map of map"),
+		(vec![pl(bx(bmap(str_()))), pl(bmap(str_())), pl(ptr(Ptr::Rc, bmap(str_())))], "the same map behind Box, bare and behind Rc"),
+	];
+	for (fields, what) in &shared {
+		add(prog(vec![st(fields.clone()), s2()]), &format!("shared unnamed node: {what}, as sibling fields of the root"));
+		add(prog(vec![st(vec![pl(nm(2)), fields[0].clone()]), s2(), st(fields.clone())]), &format!("shared unnamed node: {what}, in a nested record and again in the root"));
+		add(prog(vec![st(vec![pl(nm(2)), pl(vec_(nm(2)))]), s2(), st(fields.clone())]), &format!("shared unnamed node: {what}, in a nested, shared record"));
+	}
+	add(prog(vec![st(vec![pl(nm(1)), pl(bmap(i64_())), pl(vec_(i32_()))]), Def::Union { variants: vec![pl(bmap(i64_())), pl(vec_(i32_())), pl(str_())], unit_at: Some(0) }]), "shared unnamed node: map and Vec as union enum payloads and again as fields");
+	add(prog(vec![st(vec![pl(bmap(i64_())), pl(nm(1)), pl(nm(2))]), Def::Union { variants: vec![pl(bmap(i64_())), pl(i32_())], unit_at: None }, Def::Union { variants: vec![pl(hmap(i64_())), pl(str_())], unit_at: Some(2) }]), "shared unnamed node: the same map as payload of two union enums and as a field");
+	add(prog(vec![Def::Union { variants: vec![pl(nm(1)), pl(nm(2)), pl(bmap(i64_()))], unit_at: None }, st(vec![pl(bmap(i64_()))]), st(vec![pl(hmap(i64_())), pl(bmap(i64_()))])]), "shared unnamed node: the same map in a union enum's payload and inside two of its record payloads");
+	add(prog(vec![st(vec![pl(Ty::Gen(1, vec![i32_()])), pl(vec_(i32_())), pl(Ty::Gen(1, vec![i32_()]))]), Def::Generic { shape: 0 }]), "shared unnamed node: Vec<i32> inside a generic instantiation and as a sibling field");
+
 	// S8: recursion
 	let list = |p: Ptr| st(vec![pl(lf(Leaf::I64)), pl(opt(ptr(p, nm(0))))]);
 	for p in [Ptr::Box, Ptr::Rc, Ptr::Arc] {
